@@ -189,6 +189,13 @@ def _tagkind_catalogue():
     for ex in ["a + 1", "a - (a - 1)", "v[0]", "v[5]", "size(v)", "a as float", "nope", "a + s", "m['k']", "m[1]", "-a", "a ** 2", "(a)"]:
         out.append("R: !record {fields: {a: int, v: int*3, s: string, m: string->int}, computedFields: {c: \"%s\"}}\n" % ex.replace('"', "'"))
         out.append("R: !record {fields: {a: int, v: int*3, s: string, m: string->int}, computedFields: {c: !switch {a: {int x: \"%s\"}}}}\n" % ex.replace('"', "'"))
+    # head comments of every shape in front of every kind of node
+    for cm in ["#", "#\n#", "# a\n#\n# b", "#\n# b", "# a\n#", "##", "#!", "# \t", "#\t", "#" + " " * 200, "#" * 300, "# " + "x" * 5000, "#\n\n#", "# é😀", "#\r", "# a\\"]:
+        def c(ind):
+            return "".join(ind + l + "\n" for l in cm.split("\n"))
+        out.append(c("") + "E: !enum\n  values:\n" + c("    ") + "    one: 1\n" + c("") + "A: int*\n" + c("") + "R: !record\n  fields:\n" + c("    ") + "    a: int\n" + c("    ") +
+                   "    arr: !array\n      items: float\n      dimensions:\n" + c("        ") + "        x:\n  computedFields:\n" + c("    ") + "    twice: a * 2\n" +
+                   c("") + "P: !protocol\n  sequence:\n" + c("    ") + "    s: R\n")
     return out
 
 
